@@ -3,6 +3,7 @@ package engine
 import (
 	"go/constant"
 	"go/token"
+	"go/types"
 
 	"golang.org/x/tools/go/ssa"
 )
@@ -437,7 +438,7 @@ func unrollOne(fn *ssa.Function, tl *tableLoop) bool {
 	repairSet := map[*ssa.Phi]bool{}
 	type pendingPhi struct {
 		phi  *ssa.Phi
-		from []int                       // original predecessor index per new edge
+		from []int                     // original predecessor index per new edge
 		vm   []map[ssa.Value]ssa.Value // iteration map per new edge (nil: not from the loop)
 	}
 	var pending []pendingPhi
@@ -601,7 +602,7 @@ func forwardTableLoads(fn *ssa.Function) bool {
 		}
 		if _, isG := table.(*ssa.Global); isG {
 			switch v.(type) {
-			case *ssa.Const, *ssa.Function:
+			case *ssa.Const, *ssa.Function, *ssa.Global:
 				return true
 			}
 			return false
@@ -714,7 +715,7 @@ func forwardTableLoads(fn *ssa.Function) bool {
 				// scalar row
 				if t, k, ok := rowOf(x); ok {
 					if ri := get(t)[k]; ri != nil && ri.whole != nil && len(ri.fields) == 0 && usable(t, ri.whole) {
-						if _, isStruct := x.Type().Underlying().(interface{ NumFields() int }); !isStruct {
+						if _, isStruct := x.Type().Underlying().(*types.Struct); !isStruct {
 							replaceOperands(fn, x, ri.whole)
 							changed = true
 						}
@@ -750,6 +751,16 @@ func forwardTableLoads(fn *ssa.Function) bool {
 						changed = true
 					}
 				}
+			case *ssa.Index:
+				// scalar row of an array value
+				if t, k, ok := rowOf(x); ok {
+					if ri := get(t)[k]; ri != nil && ri.whole != nil && len(ri.fields) == 0 && usable(t, ri.whole) {
+						if _, isStruct := x.Type().Underlying().(*types.Struct); !isStruct {
+							replaceOperands(fn, x, ri.whole)
+							changed = true
+						}
+					}
+				}
 			case *ssa.Field:
 				if t, k, ok := rowOf(x.X); ok {
 					if ri := get(t)[k]; ri != nil {
@@ -767,4 +778,3 @@ func forwardTableLoads(fn *ssa.Function) bool {
 	}
 	return changed
 }
-
